@@ -2278,5 +2278,25 @@ theorem validate_shapeArray_ok_iff (s : List Nat) : validate_shapeArray s = .ok 
   simp
 
 
+theorem validate_tenfunArity_ok_iff (nargs others : Nat) :
+    validate_tenfunArity nargs others = .ok () ↔ Pre_tenfunArity nargs others := by
+  unfold validate_tenfunArity Pre_tenfunArity
+  by_cases h : others = 1 ∧ nargs = 2
+  · rw [if_pos (by simp [h.1, h.2])]
+    simp [h.1, h.2]
+  · rw [if_neg (by simpa using h)]
+    simp only [rejectIf_ok, bne_eq_false_iff_eq]
+    constructor
+    · exact fun h1 => Or.inl h1
+    · rintro (h1 | ⟨h2, h3⟩)
+      · exact h1
+      · exact absurd ⟨h3, h2⟩ h
+
+theorem validate_setSubsWidth_ok_iff (N width : Nat) :
+    validate_setSubsWidth N width = .ok () ↔ Pre_setSubsWidth N width := by
+  unfold validate_setSubsWidth Pre_setSubsWidth
+  simp
+
+
 end V19
 end Pyttb
